@@ -326,6 +326,8 @@ pub struct Peer {
     pub last_order: Vec<String>,
     pub last_registry: Vec<u32>,
     pub local_asset_ops: Vec<(u8, Uuid)>,
+    pub dropped_seen: usize,
+    pub dropped_flights: Vec<(u8, Uuid, u64)>,
     pub own_port: u16,
     pub web_port: u16,
     pub prev_clients: Vec<u32>,
@@ -507,12 +509,18 @@ fn image_digest(i: &Image) -> String {
         "empty".to_string()
     }
 }
+/// values from 1_000_000 on stand for a LARGE audio source (48 MB: its transfer takes many frames)
+const BIG_AUDIO: usize = 48 << 20;
 fn audio_of(v: u64) -> AudioSource {
-    AudioSource { bytes: (v as u32).to_le_bytes().to_vec().into() }
+    let mut bytes = (v as u32).to_le_bytes().to_vec();
+    if v >= 1_000_000 {
+        bytes.resize(4 + BIG_AUDIO, 0x5a);
+    }
+    AudioSource { bytes: bytes.into() }
 }
 fn audio_digest(a: &AudioSource) -> String {
     let b: &[u8] = a.as_ref();
-    if b.len() == 4 {
+    if b.len() == 4 || b.len() == 4 + BIG_AUDIO {
         format!("{}", u32::from_le_bytes([b[0], b[1], b[2], b[3]]))
     } else {
         "odd".to_string()
@@ -582,6 +590,8 @@ impl Session {
                 last_order: vec![],
                 last_registry: vec![],
                 local_asset_ops: vec![],
+                dropped_seen: 0,
+                dropped_flights: vec![],
                 own_port: 0,
                 web_port: 0,
                 prev_clients: vec![],
@@ -1239,6 +1249,26 @@ impl Session {
             lines.push(format!("XFER {} active={} queued={} toapply={}", p, t.downloads_active, t.downloads_queued, t.meshes_to_apply + t.images_to_apply + t.audios_to_apply));
             // downloads requested and not yet applied: kind:asset:under-way
             let pend: Vec<String> = t.pending.iter().map(|(c, id, n)| format!("{}:{}:{}", c + 1, self.ah(id), n)).collect();
+            // the steps the registry of pending downloads has taken since the last frame, in lock order (read in
+            // the same moment as the registry itself):
+            // REG p step kind asset number flag (steps: 0 request, 1 arrived (flag: dropped as outdated),
+            // 2 thread over (flag: entry removed), 3 bytes taken by process_*, 4 applied (flag: entry removed))
+            for (step, c, u, n, flag) in t.registry_log.iter().skip(self.peers[p].dropped_seen) {
+                let a = self.ah(u);
+                lines.push(format!("REG {} {} {} {} {} {}", p, step, c + 1, a, n, *flag as u8));
+                // DROP = the thread of a download that was dropped on arrival is over (the moment the
+                // registry forgets that request)
+                if *step == 1 && *flag {
+                    self.peers[p].dropped_flights.push((*c, *u, *n));
+                }
+                if *step == 2 {
+                    if let Some(pos) = self.peers[p].dropped_flights.iter().position(|x| *x == (*c, *u, *n)) {
+                        self.peers[p].dropped_flights.remove(pos);
+                        lines.push(format!("DROP {} {} {}", p, c + 1, a));
+                    }
+                }
+            }
+            self.peers[p].dropped_seen = t.registry_log.len();
             lines.push(format!("PEND {} {}", p, if pend.is_empty() { "-".to_string() } else { pend.join(",") }));
         }
         for l in lines {
